@@ -695,6 +695,17 @@ Fixpoint latest_only (last : option N) (es : list sev) : bool :=
   end.
 
 Definition nlist_eqb := list_eqb N.eqb.
+(* the depths of the ENTRY records only (what one can read off replay's output: `f() {` / `f();` lines) *)
+Fixpoint entry_depths (es : list sev) (ds : list N) : list N :=
+  match es, ds with
+  | SEntry _ :: er, d :: dr => d :: entry_depths er dr
+  | SExit :: er, _ :: dr => entry_depths er dr
+  | _, _ => []
+  end.
+Definition ok_replay_entries (es : list sev) (shown : list N) : bool :=
+  match gt_run gt0 es with Some l => nlist_eqb (entry_depths es l) shown | None => false end.
+Definition agree_replay_entries (es : list sev) (shown : list N) : bool :=
+  nlist_eqb (entry_depths es (rp_run rp0 es)) shown.
 (* checker for a replayed stream: the depths shown are the true ones *)
 Definition ok_replay (es : list sev) (shown : list N) : bool :=
   match gt_run gt0 es with Some l => nlist_eqb l shown | None => false end.
